@@ -182,6 +182,13 @@ func (s *refSession) Encrypt(msg []byte) []byte {
 	return out
 }
 
+// EmptyFrame seals a frame without data (the wire format allows it; a receiver skips it).
+func (s *refSession) EmptyFrame() []byte {
+	f := refFrame(s.encKey, s.encCnt, nil)
+	s.encCnt++
+	return f
+}
+
 // DecryptFrames decrypts as many whole frames as buf holds; returns plaintext, consumed bytes, ok=false on auth failure.
 func (s *refSession) DecryptFrames(buf []byte) (pt []byte, used int, ok bool) {
 	for len(buf)-used >= 2 {
